@@ -264,7 +264,9 @@ class Run7(flat.FlatRun):
             self.items.append(('done', cid, 1) + canon_exc(e))
             raise
         if suspend:
-            await asyncio.sleep(0)
+            # once by default; `d.suspend_n` lets a callback stay inside its await for several loop iterations
+            for _ in range(getattr(self.d, 'suspend_n', {}).get(cid, 1)):
+                await asyncio.sleep(0)
         return self.finish(cid, out)
 
     async def ainvoke(self, model, slot, cid, *args, **kwargs):
@@ -338,6 +340,10 @@ class Run7(flat.FlatRun):
                 except BaseException as e:     # the awaiting caller catches whatever escapes
                     if isinstance(e, (common.MachineryError, KeyboardInterrupt)):
                         raise
+            # an optional tail of triggers issued CONCURRENTLY from this (the caller's) task: what an earlier event left
+            # behind in the caller's context (task registry, context variables) shows only here
+            for group in getattr(self.d, 'concurrent_tail', ()):
+                await asyncio.gather(*[self.ado_cmd(c) for c in group], return_exceptions=True)
             # callbacks that outlived their trigger would still be scheduled here
             self.leftover = len([t for t in asyncio.all_tasks() if t is not asyncio.current_task() and not t.done()])
         asyncio.run(main())
